@@ -71,6 +71,15 @@ def bounds(tier):
 
 
 def tasks(tier, seed):
+    out = _tasks(tier, seed)
+    if tier == "quick":
+        for t in out:
+            # concrete re-runs of the real exposure loop validate the encoding; 40 per task plus every 25th path is plenty for the quick tier
+            t.setdefault("caps", {}).update({"max_fidelity": 40, "fidelity_stride": 25})
+    return out
+
+
+def _tasks(tier, seed):
     ns = range(1, 7) if tier == "quick" else range(1, 13)
     out = []
     for n in ns:
